@@ -1,0 +1,36 @@
+//go:build verif
+
+// Contracts checked by /verif/govc (comment-only file; see /verif/DESIGN.md, property C36).
+// The hash / directory model (hstate, wr1, wr3, dirList, nameU, ...) is in /verif/contracts/external/hash.go.spec.
+package tool
+
+//@ spec canClS(mod *xgomod.Module, fname string) bool :=
+//@        pathExtU(fname) == ".go" || pathExtU(fname) == ".xgo" || pathExtU(fname) == ".gop" || pathExtU(fname) == ".gox" ||
+//@        isClassU(mod, classExtU(fname))
+//@ spec includedS(e fs.DirEntry, mod *xgomod.Module) bool :=
+//@        !isDirU(e) && !hasPrefixU(nameU(e), "_") && canClS(mod, nameU(e)) && infoOKU(e)
+//@ spec stepS(h int, e fs.DirEntry, mod *xgomod.Module) int :=
+//@        includedS(e, mod) ? wr3(h, "file\t%s\t%x\t%x\n", any(nameU(e)), any(sizeU(infoU(e))), any(unixNanoU(mtimeU(infoU(e))))) : h
+//@ spec headerS(self bool, xgo *env.XGo) int :=
+//@        self ? wr1(wr1(initH(), "go\t%s\n", any(goVersionU())), "xgo\t%s\n", any(xgo.Version)) : initH()
+//@
+//@ # FM(fis, k, mod, h0): hash state after the first k entries — defined by recursion on k
+//@ ufunc FM(fis []fs.DirEntry, k int, mod *xgomod.Module, h0 int) int
+//@ axiom FMbase := forall fis []fs.DirEntry :: forall mod *xgomod.Module :: forall h0 int :: FM(fis, 0, mod, h0) == h0
+//@ axiom manual FMstep := forall fis []fs.DirEntry :: forall k int :: forall mod *xgomod.Module :: forall h0 int ::
+//@        k >= 1 ==> FM(fis, k, mod, h0) == stepS(FM(fis, k-1, mod, h0), fis[k-1], mod)
+//@
+//@ func canCl
+//@   pure
+//@   ensures result == canClS(mod, fname)
+//@
+//@ func dirHash
+//@   requires xgo != nil
+//@   assigns hstate
+//@   ensures [listed] readDirOK(dir) ==> result == encS(sumU(FM(dirList(dir), len(dirList(dir)), mod, headerS(self, xgo))))
+//@   ensures [unreadable] !readDirOK(dir) ==> result == encS(sumU(headerS(self, xgo)))
+//@
+//@ loop dirHash#1
+//@   invariant hstate[io.Writer(h)] == FM(fis, rangeindex+1, mod, headerS(self, xgo))
+//@   invariant fis == dirList(dir) && h != nil && (forall i in 0..len(fis) :: fis[i] != nil)
+//@   use FMstep(fis, rangeindex+1, mod, headerS(self, xgo))
